@@ -69,6 +69,13 @@ HARNESS.update({
                                    'source.rs: choose_index (Arbitrary) is onto', ['C12']),
     'u9_arb_gen_bool_both': _h(['C12'], True, 'inputs 00 and 01', 'source.rs: gen_bool (Arbitrary) takes both values', ['C12']),
 })
+HARNESS.update({
+    'u0_byte_order': _h(['C04', 'C06', 'C02'], True, 'all u16/u32/u64/i32/f64', 'std {to,from}_{le,be}_bytes vs the byte-order specs of contracts/shim.rs', ['C09']),
+    'u0_saturating_and_min': _h(['C04', 'C09', 'C11'], True, 'all argument values', 'std saturating_add/saturating_sub/checked_sub/min vs shim specs', ['C09']),
+    'u0_version_order_and_cast': _h(['C05', 'C06'], True, 'all pairs of versions', 'derived PartialOrd/PartialEq and `as u8` of Version vs ver_num', ['C09']),
+    'u0_copy_le_u64_into_vec': _h(['C06'], True, 'every 12-byte vector, every offset that fits, every u64', 'slice copy_from_slice of to_le_bytes vs vf_copy_le_u64', ['C09']),
+})
+U0 = ['u0_byte_order', 'u0_saturating_and_min', 'u0_version_order_and_cast', 'u0_copy_le_u64_into_vec']
 U7 = ['u7_as_u8_all_kinds', 'u7_tables_exact']
 U8_QUICK = [n for n in HARNESS if n.startswith('u8_') and 'typeconfusion' not in n]
 U8_THOROUGH = [n for n in HARNESS if n.startswith('u8_typeconfusion')]
@@ -185,7 +192,7 @@ PROPS.update({
         claim='Unbounded proof (any memo size, any mutator outcome for the index) that GET-family indices are defined, PUT-family indices are fresh, and no PUT executes on MARK/empty stack.',
         note=_NOTE, assumptions=_CORE_ASSUME),
     'C04': dict(
-        title='Every output is a well-formed opcode stream', verus=['core', 'mutv'], kani_quick=['u7_as_u8_all_kinds'], kani_thorough=U8_THOROUGH, level='proof',
+        title='Every output is a well-formed opcode stream', verus=['core', 'mutv'], kani_quick=['u7_as_u8_all_kinds'] + U0, kani_thorough=U8_THOROUGH, scans=['textformats'], level='proof',
         technique='Verus contracts: every emitter (all emit_and_process arms, emit_int/emit_string/emit_bytes/emit_global, emit_opcode, emit_proto, the FRAME patch) appends exactly one opcode whose bytes satisfy a hand-written wire-format predicate per argument class; Kani for the post-emission rewrite',
         claim='Safe mode: unbounded proof that each emission is exactly one well-formed opcode under the CPython table (known byte, complete argument, length prefix == payload length, '
               'EXT codes >= 1 under the signed reader, memo index non-negative) and that the output is header + these chunks + collapse tail + one final STOP. '
@@ -204,7 +211,7 @@ PROPS.update({
         note=_NOTE + ' Table content is assumed in Verus and proved exactly equal to the CPython vocabulary by the Kani harness u7_tables_exact; the protocol-0 7-bit-ASCII clause for payload bytes is not covered yet.',
         assumptions=_CORE_ASSUME),
     'C06': dict(
-        title='FRAME unique, leads the body, spans exactly the rest', verus=['core'], kani_thorough=U8_THOROUGH, level='proof',
+        title='FRAME unique, leads the body, spans exactly the rest', verus=['core'], kani_quick=U0, kani_thorough=U8_THOROUGH, level='proof',
         technique='Verus contract on generate_internal (FRAME back-patch arithmetic and position), can_emit(Frame)=false, unreachable Frame emitter arm; Kani frame clause of the type-confusion rewrite',
         claim='Safe mode: proof that FRAME occurs only for P >= 4, at byte offset 2, with length == total length - 11, and that no body/tail opcode is FRAME. '
               'Unsafe mode: the rewrite never touches bytes before the current emission (Kani, bounded) and the length is patched after all rewrites.',
